@@ -143,6 +143,8 @@ def gen_cases(tier: str, seed: int) -> List[Dict]:
         for names, exps in monosets:
             for opt in settings:
                 shape_pair = rng.choice([((), ()), ((2,), (2,)), ((1,), (2,)), ((2,), ()), ((), ())])
+                if quick and len(exps) >= 5:
+                    shape_pair = ((), ())  # 5 monomials x 2 elements x 6 operators exceeds the quick path budget
                 # pick a sub-selection of monomials per operand (absent terms count as zero)
                 ea = [e for e in exps if rng.random() < 0.8] or exps[:1]
                 eb = [e for e in exps if rng.random() < 0.8] or exps[-1:]
@@ -165,7 +167,9 @@ def gen_cases(tier: str, seed: int) -> List[Dict]:
     for opt in settings:
         for names, exps in monosets[1:3] + ([] if quick else monosets[3:6]):
             sub = exps[:3]
-            ops_ = [S.make_poly_spec(p, names, sub, (), rng, 3 if not quick else 2, mode="raw", zero_prob=0.1, literal_prob=0.3) for p in "abc"]
+            # quick: 4 atoms over the three polynomials (the path count is roughly 3^atoms per compared pair)
+            budgets = (2, 1, 1) if quick else (3, 2, 2)
+            ops_ = [S.make_poly_spec(p, names, sub, (), rng, b, mode="raw", zero_prob=0.1, literal_prob=0.3) for p, b in zip("abc", budgets)]
             n += 1
             cases.append({"id": "%s-%03d-triple" % (PROP, n), "op": "compare3", "operands": ops_, "options": opt, "limits": lim})
     return cases
